@@ -34,13 +34,7 @@ structure Cfg where
   clientName : Bytes := []             -- Config.Name (FINGER reply)
   globalFormat : Bool := false
 
-/-- What a handler does to the outside world. -/
-inductive Out where
-  | write (e : Event)      -- `c.write`: straight into the send queue
-  | send (e : Event)       -- `c.Send`: format / split / flood control, then the send queue
-  | inject (e : Event)     -- `c.receive`: back into the receive queue (local ERROR events)
-  | close                  -- `c.Close()`
-  deriving Repr
+-- `Out` (what a handler does to the outside world) is declared in Girc/Base/GoSem.lean.
 
 /-- Client-side state that lives outside `state`: how often the SASL mechanism was asked. -/
 structure CState where
